@@ -78,6 +78,7 @@ class Sched:
         self.handoff = False            # default-schedule variant: a thread woken by the running one runs first
         self.env_first = False          # default-schedule variant: the thread an environment thread was fired over stays
         self._held = None               # paused (while anything else can run) until that environment thread has finished
+        self.others_first = False       # ... and (others_first) until nothing else can run at all
         self._prev_enabled = set()
         self.died = []                  # (name, exception repr, traceback) for library threads that died
 
@@ -242,8 +243,16 @@ class Sched:
                 self._prev_enabled = set(t.id for t in nonlazy)
                 if self._held is not None:
                     fired, held = self._held
-                    if fired.state == DONE or held.state == DONE:
+                    if held.state == DONE or (fired.state == DONE and not self.others_first):
                         self._held = None
+                    elif default is held and self.others_first and fired.state == DONE:
+                        # others_first: the interrupted thread also waits for everything the event has set in motion (the
+                        # dispatcher handling the injected packet, ...) until nothing else can run
+                        others = [t for t in nonlazy if t is not held]
+                        if others:
+                            default = others[0]
+                        else:
+                            self._held = None
                     elif default is held:
                         # the interrupted thread waits for the environment event to be handled completely (the error path
                         # runs to its end, with whatever other threads it needs), if anything else can run at all
@@ -439,7 +448,14 @@ class VRLock:
         return self._owner is not None
 
     def acquire(self, blocking=True, timeout=-1):
-        s = _sched()
+        s = S
+        if s is None:
+            # outside a scheduler (thread-free parts of the checks): one thread, re-entrant by definition
+            if self._owner is not None and self._owner != 'no-scheduler':
+                raise HarnessError('VRLock taken inside a scheduler is used outside it')
+            self._owner = 'no-scheduler'
+            self._count += 1
+            return True
         me = s.me()
         s.point('rlock.acquire')
         if self._owner is me:
@@ -456,7 +472,14 @@ class VRLock:
         return True
 
     def release(self):
-        s = _sched()
+        s = S
+        if s is None:
+            if self._owner != 'no-scheduler':
+                raise RuntimeError('cannot release un-acquired lock')
+            self._count -= 1
+            if self._count == 0:
+                self._owner = None
+            return
         if s.killing:
             raise Kill()
         if self._owner is not s.me():
@@ -527,6 +550,8 @@ class VEvent:
         self._flag = False
 
     def wait(self, timeout=None):
+        if S is None and (self._flag or timeout is not None):
+            return self._flag           # outside a scheduler nobody else can set it: a timed wait just expires
         s = _sched()
         s.point('event.wait')
         if self._flag:
